@@ -613,6 +613,8 @@ def run(chk):
                         'regex engine semantics are CPython\'s; start_line_number is an integer']
     pm = ParserModel(chk.repo, 'C06.P')
     chk.guard('C06.P', check_positions, chk, pm)
+    from .c10 import check_no_splitlines
+    chk.guard('C06.N', check_no_splitlines, chk, pm, 'C06.N')
     chk.guard('C06.N', check_error_reports, chk, pm)
     chk.guard('C06.U', check_continuation, chk, pm)
     chk.guard('C06.D', check_sweep, chk, pm)
